@@ -1007,6 +1007,10 @@ func (w *wbuild) checkBuild(res *InvResult, req BuildReq, opts InvOpts, cm *cach
 		}
 		extFail0[l] = k
 	}
+	taint0 := map[string]bool{}
+	for k, v := range cm.taint {
+		taint0[k] = v
+	}
 	unc0 := map[string]bool{}
 	for k := range cm.unc {
 		unc0[k] = true
@@ -1240,6 +1244,11 @@ func (w *wbuild) checkBuild(res *InvResult, req BuildReq, opts InvOpts, cm *cach
 		for _, l := range order {
 			if executed[l] > 0 {
 				cm.markUnc(ev, l)
+				if taint0[l] {
+					// ... and the removal of its taint marker may have been cut short as well
+					cm.taint[l] = true
+					cm.taintUnc[l] = true
+				}
 			}
 		}
 	} else {
